@@ -25,6 +25,13 @@ WORD = {"yotta": 24, "zetta": 21, "exa": 18, "peta": 15, "tera": 12, "giga": 9, 
         "deca": 1, "deci": -1, "centi": -2, "milli": -3, "micro": -6, "nano": -9, "pico": -12, "femto": -15,
         "atto": -18, "zepto": -21, "yocto": -24}
 
+# names under which unyt.physical_constants documents a constant that are also unit names: only these may be
+# something else than the unit at top level (twin of Ref.C14.shadowedByConstants)
+CONSTANT_NAMES = {"G", "hbar", "c", "Msun", "msun", "m_sun", "M_Sun", "M_sun", "m_Sun", "solar_mass", "mass_sun", "Mjup",
+                  "jupiter_mass", "Mearth", "earth_mass", "me", "electron_mass", "mp", "proton_mass", "m_pl", "planck_mass",
+                  "l_pl", "planck_length", "t_pl", "planck_time", "T_pl", "planck_temperature", "q_pl", "planck_charge",
+                  "E_pl", "planck_energy"}
+
 HDR = ("import math, warnings\nwarnings.simplefilter('ignore')\nimport unyt\nfrom unyt import Unit\n"
        "import unyt.unit_symbols as us\nfrom unyt._unit_lookup_table import default_unit_symbol_lut as LUT\n")
 
@@ -186,6 +193,9 @@ def run(tier, seed):
                              {"python": snippet(get)})
                 elif route == "top-level":
                     chk.count("top-level-shadowed-by:" + type(getattr(unyt, n, None)).__name__)
+                    if n not in CONSTANT_NAMES:
+                        chk.fail(f"attr-missing|top-level|{sh}", f"unyt.{n} is {type(getattr(unyt, n, None)).__name__}, not the unit {n!r}, and {n!r} is not a documented name of a physical constant",
+                                 {"python": snippet(f"u = getattr(unyt, {n!r}, None)\nassert isinstance(u, Unit), type(u)\n" + cond)})
                 continue
             chk.count("attr:" + route)
             lut_r = reg.lut if route == "add_symbols" else LUT
@@ -385,7 +395,27 @@ def correspond(chk, model, tier, rng, reader, names, extra_strings, us_attrs, to
         if s and not re.match(r"^[^\W\d][\w°%]*$", s.replace("°", "d").replace("%", "p"), re.U):
             continue
         strings.append(s)
+    from unyt import _parsing
+
+    rewritten = dict(getattr(_parsing, "_rewritten_name_alternatives", {}))
+    strings += list(rewritten) + ["kilodegC", "KilodegC", "yoctodegC", "kilodegF", "kilodeg"]
+    strings += ["Δ°C", "Δ°F", "kΔ°C", "Δ", "Δ°", "kiloΔ°C", "delta_degC", "kdelta_degC", "Δ°C°C", "%Δ°F"]
     strings = list(dict.fromkeys(strings))
+    # the shared string-keyed model of the look-up (UnytModel/Lut.lean, used by C02/C12) against this one
+    plain = [s for s in strings if s and "Δ" not in s]
+    rep_a = model.ask([f"c14.resolve\tdefault\t{s}" for s in plain])
+    rep_b = model.ask([f"resolve\t{s}" for s in plain])
+    for s, a, b in zip(plain, rep_a, rep_b):
+        chk.count("corr:two-models")
+        va = ([a[2]] + a[5:8]) if a[0] == "ok" and a[1] == "sym" else a[:2]
+        vb = b[1:5] if b[0] == "ok" else b[:2]
+        if s in ("Symbol", "Integer", "Float", "Rational", "sqrt"):
+            continue  # the shared model has no parser globals (they are not table keys either way)
+        if s.replace("°", "deg") in rewritten and s.replace("°", "deg") not in INV:
+            chk.count("corr:two-models:rewritten-name-skipped")
+            continue  # … nor the parser's table of rewritten spellings (kilo°C → kilodegC → kdegC)
+        if va != vb:
+            chk.disagree("two-models", f"{s!r}: Names.lean {va} Lut.lean {vb}")
     for which, r_ in (("default", None), ("custom", reg)):
         todo = strings if which == "default" else (names if tier == "thorough" else rng.sample(names, 800)) + \
             ["c14foo", "kc14foo", "c14bar", "kc14bar", "Mc14foo", "dac14foo", "pc", "kpc", "Mpc", "c14", "microc14foo"]
